@@ -4,6 +4,7 @@
 From Coq Require Import List Arith Bool Lia.
 Import ListNotations.
 From Verif.C10 Require Import Model Proofs.
+Local Notation idc := (fun s0 : state => s0).
 
 Ltac ds := intros; match goal with s : state |- _ => destruct s end; try reflexivity.
 
@@ -65,8 +66,8 @@ Lemma x_comb_dec c s : exhausted (comb_dec T c s) = exhausted s. Proof. unfold c
 Hint Rewrite x_comb_dec : xh.
 Lemma x_elem_fn c i b a s : exhausted (elem_fn T c i b a s) = exhausted s. Proof. unfold elem_fn. xh. Qed.
 Hint Rewrite x_elem_fn : xh.
-Lemma x_exec_act s a : exhausted (exec_act T s a) = exhausted s. Proof. unfold exec_act. xh. Qed.
-Lemma x_exec_acts l s : exhausted (fold_left (exec_act T) l s) = exhausted s.
+Lemma x_exec_act s a : exhausted (exec_act T idc s a) = exhausted s. Proof. unfold exec_act. xh. Qed.
+Lemma x_exec_acts l s : exhausted (fold_left (exec_act T idc) l s) = exhausted s.
 Proof. apply fold_left_pres. intros; apply x_exec_act. Qed.
 Hint Rewrite x_exec_acts : xh.
 Lemma x_exec_tsteps r l : forall s, exhausted (exec_tsteps T r l s) = exhausted s.
@@ -108,14 +109,14 @@ Hint Rewrite x_async_throw : xh.
 Lemma x_async_step b s : exhausted (async_step T b s) = exhausted s.
 Proof. unfold async_step. destruct (ab_rest b); [xh|]. split_pr. fin. Qed.
 Hint Rewrite x_async_step : xh.
-Lemma x_exec_finally sc ful arg cap s : exhausted (exec_finally T sc ful arg cap s) = exhausted s.
+Lemma x_exec_finally sc ful arg cap s : exhausted (exec_finally T idc sc ful arg cap s) = exhausted s.
 Proof.
   unfold exec_finally. cbv beta zeta.
   destruct (s_ret sc); try solve [xh]; split_pr; split_nc; fin.
 Qed.
 Hint Rewrite x_exec_finally : xh.
 
-Lemma x_exec_job j s : exhausted (exec_job T j s) = exhausted s.
+Lemma x_exec_job j s : exhausted (exec_job T idc j s) = exhausted s.
 Proof.
   unfold exec_job. destruct (j_kind j) as [r a|p x]; [xh|].
   unfold new_pair_for. cbv beta iota zeta. destruct x; try solve [xh]. split_nc. fin.
@@ -154,7 +155,7 @@ Proof.
   induction fuel; intros s H; cbn [drainS].
   - destruct (queue s); auto.
   - destruct (queue s) as [|j rest]; auto.
-    assert (H1 : exhausted (exec_job T j (mark_ran j (set_queue rest s))) = true)
+    assert (H1 : exhausted (exec_job T idc j (mark_ran j (set_queue rest s))) = true)
       by (rewrite x_exec_job, x_mark_ran, x_queue; auto).
     destruct (intr _); auto; rewrite x_drop_all; auto.
 Qed.
